@@ -1,8 +1,8 @@
 // C04 harness: logical responses are generated, encoded by an encoder written from the protocol
 // specification (c04lib/wire.go), and fed to the real driver: readHeader, readFrame, parseFrame, and for
 // rows Iter.Scan with recording destinations / Iter.RowData.  What the driver reports is
-//   * compared in Go with what the logical response says (the property monitor), and
-//   * emitted as Coq correspondence cases: the Coq specification encoder must produce the same bytes,
+//   - compared in Go with what the logical response says (the property monitor), and
+//   - emitted as Coq correspondence cases: the Coq specification encoder must produce the same bytes,
 //     Spec.view must equal the driver's report, and the Coq model of the parsers must agree with the
 //     driver on header, frame, leftovers and every scanned cell.
 package main
@@ -155,12 +155,9 @@ func recordedFrame(o *hlib.Out) {
 	o.Extra["recorded_frame_bytes"] = len(body)
 }
 
-// typedRows: rows whose cells are well-formed values of their column types, several rows with blobs (and
-// collections of blobs) of decreasing and mixed lengths, consumed through SliceMap, through MapScan and through
-// Scan into fresh canonical destinations.  Every value handed to the caller is retained and compared with the
-// frame only after iteration has finished: what the caller was given must not change afterwards.
-func typedRows(o *hlib.Out, g *c04lib.Gen) {
-	r := o.Rng
+// typedRowSet: 1-4 columns (the first a blob; blobs, text, numbers, collections of blobs, tuples, UDTs) and 3-5 rows
+// whose cells are well-formed values of their column types, blobs of decreasing and mixed lengths.
+func typedRowSet(r *hlib.Rng, g *c04lib.Gen, v int) (c04lib.SMeta, [][]c04lib.SCell) {
 	nat := func(id int) *c04lib.SType { return &c04lib.SType{Kind: c04lib.KNative, ID: id} }
 	menu := func() *c04lib.SType {
 		switch r.Intn(12) {
@@ -186,58 +183,69 @@ func typedRows(o *hlib.Out, g *c04lib.Gen) {
 		return nat(int(r.Pick(1, 10, 13)))
 	}
 	blobLens := [][]int{{11, 3, 2}, {8, 8, 1, 5}, {5, 0, 4, -1, 3}, {1, 2, 3}, {16, 15, 14, 13}, {4, -1, 4}}
+	ncols := 1 + r.Intn(4)
+	m := c04lib.SMeta{Count: ncols, Global: r.Bool(), GKS: "ks", GTab: "tb"}
+	for i := 0; i < ncols; i++ {
+		t := menu()
+		if i == 0 {
+			t = nat(3)
+		}
+		c := c04lib.SCol{Name: fmt.Sprintf("c%d", i), Type: t}
+		if !m.Global {
+			c.KS, c.Table = "ks", "tb"
+		}
+		m.Cols = append(m.Cols, c)
+	}
+	pattern := blobLens[r.Intn(len(blobLens))]
+	nrows := len(pattern)
+	rows := make([][]c04lib.SCell, nrows)
+	opt := func(b []byte) c04lib.OptBytes {
+		if b == nil {
+			return c04lib.OptBytes{Null: true}
+		}
+		return c04lib.OptBytes{Val: b}
+	}
+	for ri := range rows {
+		for _, c := range m.Cols {
+			switch {
+			case c.Type.Kind == c04lib.KNative && c.Type.ID == 3:
+				n := pattern[(ri+len(c.Name))%len(pattern)]
+				if c.Name == "c0" {
+					n = pattern[ri]
+				}
+				if n < 0 {
+					rows[ri] = append(rows[ri], c04lib.SCell{Val: c04lib.OptBytes{Null: true}})
+				} else {
+					rows[ri] = append(rows[ri], c04lib.SCell{Val: c04lib.OptBytes{Val: r.Bytes(n)}})
+				}
+			case c.Type.Kind == c04lib.KTuple:
+				cell := c04lib.SCell{IsTuple: true}
+				if r.Chance(10) {
+					cell.Null = true
+				} else {
+					for _, e := range c.Type.Elems {
+						cell.Comps = append(cell.Comps, opt(g.Value(v, e)))
+					}
+				}
+				rows[ri] = append(rows[ri], cell)
+			default:
+				rows[ri] = append(rows[ri], c04lib.SCell{Val: opt(g.Value(v, c.Type))})
+			}
+		}
+	}
+	return m, rows
+}
+
+// typedRows: rows whose cells are well-formed values of their column types, several rows with blobs (and
+// collections of blobs) of decreasing and mixed lengths, consumed through SliceMap, through MapScan and through
+// Scan into fresh canonical destinations.  Every value handed to the caller is retained and compared with the
+// frame only after iteration has finished: what the caller was given must not change afterwards.
+func typedRows(o *hlib.Out, g *c04lib.Gen) {
+	r := o.Rng
 	for it := 0; it < 14*o.Scale; it++ {
 		v := int(r.Pick(2, 3, 4, 4, 5))
-		ncols := 1 + r.Intn(4)
-		m := c04lib.SMeta{Count: ncols, Global: r.Bool(), GKS: "ks", GTab: "tb"}
-		for i := 0; i < ncols; i++ {
-			t := menu()
-			if i == 0 {
-				t = nat(3)
-			}
-			c := c04lib.SCol{Name: fmt.Sprintf("c%d", i), Type: t}
-			if !m.Global {
-				c.KS, c.Table = "ks", "tb"
-			}
-			m.Cols = append(m.Cols, c)
-		}
-		pattern := blobLens[r.Intn(len(blobLens))]
-		nrows := len(pattern)
-		rows := make([][]c04lib.SCell, nrows)
-		opt := func(b []byte) c04lib.OptBytes {
-			if b == nil {
-				return c04lib.OptBytes{Null: true}
-			}
-			return c04lib.OptBytes{Val: b}
-		}
-		for ri := range rows {
-			for _, c := range m.Cols {
-				switch {
-				case c.Type.Kind == c04lib.KNative && c.Type.ID == 3:
-					n := pattern[(ri+len(c.Name))%len(pattern)]
-					if c.Name == "c0" {
-						n = pattern[ri]
-					}
-					if n < 0 {
-						rows[ri] = append(rows[ri], c04lib.SCell{Val: c04lib.OptBytes{Null: true}})
-					} else {
-						rows[ri] = append(rows[ri], c04lib.SCell{Val: c04lib.OptBytes{Val: r.Bytes(n)}})
-					}
-				case c.Type.Kind == c04lib.KTuple:
-					cell := c04lib.SCell{IsTuple: true}
-					if r.Chance(10) {
-						cell.Null = true
-					} else {
-						for _, e := range c.Type.Elems {
-							cell.Comps = append(cell.Comps, opt(g.Value(v, e)))
-						}
-					}
-					rows[ri] = append(rows[ri], cell)
-				default:
-					rows[ri] = append(rows[ri], c04lib.SCell{Val: opt(g.Value(v, c.Type))})
-				}
-			}
-		}
+		m, rows := typedRowSet(r, g, v)
+		nrows := len(rows)
 		resp := &c04lib.Response{Op: c04lib.OpResult, Result: c04lib.SResult{Kind: c04lib.RRows, Meta: m, Rows: rows}}
 		body := resp.EncodeBody(v)
 		parse := func() c04lib.Outcome { return c04lib.Parse(v, 0x80|v, 0, c04lib.OpResult, body) }
@@ -325,7 +333,9 @@ func typedRows(o *hlib.Out, g *c04lib.Gen) {
 	}
 }
 
-func reflectIndirect(p interface{}) interface{} { return reflect.Indirect(reflect.ValueOf(p)).Interface() }
+func reflectIndirect(p interface{}) interface{} {
+	return reflect.Indirect(reflect.ValueOf(p)).Interface()
+}
 
 func min(a, b int) int {
 	if a < b {
@@ -576,6 +586,7 @@ func main() {
 		typedRows(o, g)
 	}
 	handshakeView(o)
+	sessionRows(o, g)
 
 	o.Finish("From GocqlV Require Import Lib.Base C04.Model C04.Spec C04.Corr.", "C04.Corr.case", "C04.Corr.run")
 }
